@@ -95,6 +95,20 @@ def fresh_digest(prop, tier, seed, idx, timeout=300):
     return 'error:' + (p.stdout + p.stderr)[-300:]
 
 
+def exec_with_flags(prop, tier, seed, indices, pyflags, timeout=1800):
+    """Execute scenarios in a fresh interpreter started with other flags (e.g. -O: asserts stripped, __debug__ False)."""
+    env = dict(os.environ, VERIF_SEED=str(seed), VERIF_PYFLAGS=pyflags)
+    p = subprocess.run([os.path.join(ROOT, 'check'), prop, '--tier', tier, '--exec-indices', ','.join(str(i) for i in indices)],
+                       capture_output=True, text=True, env=env, timeout=timeout)
+    out = []
+    for line in p.stdout.splitlines():
+        if line.startswith('EXEC-RESULT '):
+            out.append(json.loads(line[len('EXEC-RESULT '):]))
+    if len(out) != len(indices):
+        return None, (p.stdout + p.stderr)[-400:]
+    return out, None
+
+
 def _work(args):
     """Worker task: a list of scenario indices."""
     prop, tier, seed, indices, keep_samples = args[:5]
@@ -222,6 +236,7 @@ def write_replay(prop, scenario, viol, minimised, n_exec):
 def replay_fresh(prop, path):
     """Re-execute a replay file in a fresh interpreter; True if it fails identically."""
     env = dict(os.environ)
+    env.pop('VERIF_PYFLAGS', None)
     p = subprocess.run([os.path.join(ROOT, 'check'), prop, '--replay', path],
                        capture_output=True, text=True, env=env, timeout=300)
     return p.returncode == 1 and ('VIOLATION property=%s' % prop) in p.stdout, p.stdout
@@ -231,6 +246,13 @@ def do_replay(prop, path):
     engine = load_engine(prop)
     with open(path) as f:
         doc = json.load(f)
+    flags = doc['scenario'].get('pyflags')
+    if flags == '-O' and not sys.flags.optimize:
+        # the recorded run needs an interpreter started with -O: re-execute this very command there
+        p = subprocess.run([os.path.join(ROOT, 'check'), prop, '--replay', path], env=dict(os.environ, VERIF_PYFLAGS='-O'),
+                           capture_output=True, text=True, timeout=600)
+        sys.stdout.write(p.stdout)
+        return p.returncode
     res = execute_guarded(engine, doc['scenario'])
     if res.get('harness'):
         print(res['harness'])
@@ -369,6 +391,51 @@ def run_check(prop, tier):
     if nondet:
         harness.append('HARNESS-NONDETERMINISM scenarios %s gave different digests in two workers' % nondet[:10])
 
+    # -------- the process environment is part of the world: a sample of the scenarios is executed again by an interpreter started
+    # with -O (assert statements stripped, __debug__ False); the oracles are the same, the property must hold there as well
+    opt_checked = 0
+    if not harness and os.environ.get('VERIF_NO_OPT', '') != '1':
+        k_opt = min(64 if tier == 'quick' else 640, max(8, len(results) // 8))
+        done_idx = sorted(results)
+        if hasattr(engine, 'classify'):
+            # stratified: every class of scenarios the engine distinguishes gets its share of the sample
+            groups_o = {}
+            for i in done_idx[:6000]:
+                groups_o.setdefault(engine.classify(make_scenario(engine, prop, tier, seed, i)), []).append(i)
+            pick = []
+            lists = [groups_o[k] for k in sorted(groups_o)]
+            r_ = 0
+            while len(pick) < k_opt and any(r_ < len(l) for l in lists):
+                pick.extend(l[r_] for l in lists if r_ < len(l))
+                r_ += 1
+            pick = sorted(pick[:k_opt])
+        else:
+            pick = done_idx[2::max(1, len(done_idx) // k_opt)][:k_opt]
+        parts = [pick[i::jobs] for i in range(jobs) if pick[i::jobs]]
+        import concurrent.futures as _cf
+        with _cf.ThreadPoolExecutor(max_workers=jobs) as tp:
+            futs = [tp.submit(exec_with_flags, prop, tier, seed, part, '-O') for part in parts]
+            for fu in futs:
+                out, err = fu.result()
+                if out is None:
+                    harness.append('HARNESS-ERROR python -O pass: %s' % err)
+                    continue
+                for o in out:
+                    opt_checked += 1
+                    if o.get('harness'):
+                        harness.append('python -O pass, scenario %d: %s' % (o['index'], o['harness']))
+                    if not o.get('optimize'):
+                        harness.append('HARNESS-ERROR python -O pass ran without -O')
+                    for v in o['violations']:
+                        if results[o['index']]['violations']:
+                            continue            # already reported by the ordinary pass
+                        scen_o = make_scenario(engine, prop, tier, seed, o['index'])
+                        scen_o['pyflags'] = '-O'
+                        results[o['index']]['scenario'] = scen_o
+                        v = dict(v, detail='[interpreter started with -O] ' + v.get('detail', ''))
+                        viols.append((o['index'], v))
+        stats['fault.interpreter_started_with_O'] = opt_checked
+
     # -------- violations: group by (property, oracle), minimise, write replay, verify
     known = load_known()
     groups = {}
@@ -381,13 +448,16 @@ def run_check(prop, tier):
     for key in sorted(groups):
         idx, v = groups[key][0]
         scen = results[idx]['scenario']
-        small, small_v, n_exec = shrink(engine, scen, v,
-                                        max_s=60 if tier == 'quick' else 180)
+        if scen.get('pyflags'):
+            small, small_v, n_exec = scen, v, 0           # needs another interpreter: not minimised in-process
+        else:
+            small, small_v, n_exec = shrink(engine, scen, v,
+                                            max_s=60 if tier == 'quick' else 180)
         k = match_known(small_v, small, known)
         if k is not None:
             known_lines.append('KNOWN-FINDING: property=%s %s' % (prop, k.get('what', '')))
             continue
-        path = write_replay(prop, small, small_v, True, n_exec)
+        path = write_replay(prop, small, small_v, not scen.get('pyflags'), n_exec)
         ok, out = replay_fresh(prop, path)
         if not ok:
             # fall back to the un-minimised scenario
